@@ -487,6 +487,24 @@ impl Engine for TableEngine {
             }
             ops.push(op);
         }
+        // two distinct tables with equal contents stored one after the other under one key: the field refers to the
+        // second one (visible once one of them changes)
+        if tables >= 3 && rng.chance(1, 3) {
+            let k = gen_key(rng);
+            let (a, b) = if rng.chance(1, 2) { (1, 2) } else { (2, 1) };
+            let pattern = vec![
+                Op::Set(0, k.clone(), V::Tab(a)),
+                Op::Set(0, k.clone(), V::Tab(b)),
+                Op::Append(b, V::Int(77)),
+                Op::Get(0, k.clone()),
+                Op::Append(a, V::Str("only-in-the-first".into())),
+                Op::Get(0, k.clone()),
+                Op::Len(0),
+            ];
+            for (i, op) in pattern.into_iter().enumerate() {
+                ops.insert(i, op);
+            }
+        }
         Case { script, tables, ops, memory_limit }
     }
     fn run(&mut self, case: &Case, obs: &mut Obs) -> Verdict {
